@@ -538,6 +538,53 @@ def r15_lexer_regexes_terminate_quickly(chk):
     chk.floor('C11.R15', 20, 'lexer rules')
 
 
+
+MANDATORY_CLAUSES = {
+    # macro production -> keyword tokens every derivation must contain (RFC 2578 ch. 5-8, RFC 2580 ch. 3-6, RFC 1215)
+    'module': ('DEFINITIONS', 'BEGIN', 'END'),
+    'moduleIdentityClause': ('LAST_UPDATED', 'ORGANIZATION', 'CONTACT_INFO', 'DESCRIPTION'),
+    'objectIdentityClause': ('STATUS', 'DESCRIPTION'),
+    'objectTypeClause': ('SYNTAX', 'STATUS'),
+    'notificationTypeClause': ('STATUS', 'DESCRIPTION'),
+    'objectGroupClause': ('OBJECTS', 'STATUS', 'DESCRIPTION'),
+    'notificationGroupClause': ('NOTIFICATIONS', 'STATUS', 'DESCRIPTION'),
+    'moduleComplianceClause': ('STATUS', 'DESCRIPTION', 'MODULE'),
+    'agentCapabilitiesClause': ('PRODUCT_RELEASE', 'STATUS', 'DESCRIPTION'),
+    'trapTypeClause': ('ENTERPRISE',),
+}
+
+
+def r16_mandatory_clauses(chk):
+    """a declaration that lacks a clause the SMI makes mandatory is malformed input: the grammar must not derive it"""
+    from rules.C17 import dialect
+    chk.doc('C11.R16', 'for every dialect: each macro production derives only texts that contain the clauses the SMI makes '
+                       'mandatory for it (table MANDATORY_CLAUSES from RFC 2578 / 2580 / 1215: e.g. OBJECTS, STATUS and '
+                       'DESCRIPTION of an OBJECT-GROUP) - decided on the grammar: the keyword occurs in every alternative '
+                       'of the production, directly or through a non-terminal all of whose alternatives contain it; a '
+                       'production re-used from a macro where the clause is optional lets malformed declarations through')
+    n = 0
+    for dname, opts in dialect_list(chk):
+        d = dialect(chk.model, opts)
+        by = d.by_lhs()
+
+        def always(sym, tok, seen=()):
+            if sym == tok:
+                return True
+            if sym not in by or sym in seen:
+                return False
+            return all(any(always(x, tok, seen + (sym,)) for x in p.rhs) for p in by[sym])
+        for lhs, toks in sorted(MANDATORY_CLAUSES.items()):
+            if lhs not in by:
+                chk.ob('C11.R16', '%s/%s' % (dname, lhs), False, 'pysmi/parser/smi.py', 'production missing')
+                continue
+            missing = [t for t in toks if not always(lhs, t)]
+            n += 1
+            fn = by[lhs][0].fn
+            chk.ob('C11.R16', '%s/%s' % (dname, lhs), not missing, '%s:%s' % ('pysmi/parser/smi.py', fn.lineno if fn else 0),
+                   'the grammar derives a %s without %s' % (lhs, ' / '.join(missing)))
+    chk.floor('C11.R16', 30, 'macro productions x dialects')
+
+
 RULES = [r1_located_package_errors, r2_state_totality, r3_progress_and_token_types, r4_line_accounting, r5_p_error,
          r6_parse_result, r7_numeric_conversion, r8_actions_cannot_raise_typeerror, r9_number_classifier,
-         r10_token_rules_return_the_token, r10_rule_functions_cannot_raise_foreign, r11_class_tables_not_mutated, r12_format_arity, r14_text_reaches_the_lexer_as_given, r15_lexer_regexes_terminate_quickly]
+         r10_token_rules_return_the_token, r10_rule_functions_cannot_raise_foreign, r11_class_tables_not_mutated, r12_format_arity, r14_text_reaches_the_lexer_as_given, r15_lexer_regexes_terminate_quickly, r16_mandatory_clauses]
